@@ -4,6 +4,7 @@
 package main
 
 import (
+	"fmt"
 	"verifharness/hx"
 	"verifharness/stack"
 )
@@ -217,7 +218,49 @@ func gen(r *hx.Rng, tier string, i int) []hx.Zs {
 			}
 		case 4: // disconnect / reconnect
 			if connected[p.Ski] {
-				h = append(h, stack.OpDisconnect(p.Ski))
+				// now and then the disconnect is overlapped by a bind / unbind call of another connected
+				// peer q for a server feature p never asked a binding for (the two commute), after which q
+				// writes: the authorisation must be exactly what q's call produced
+				var over hx.Zs
+				if r.Chance(1, 2) {
+					for _, g := range cands {
+						if g.p.Ski == p.Ski || !connected[g.p.Ski] {
+							continue
+						}
+						used := false
+						for _, x := range grants {
+							if x.p.Ski == p.Ski && fmt.Sprint(x.lf.Ent, x.lf.Id) == fmt.Sprint(g.lf.Ent, g.lf.Id) {
+								used = true
+							}
+						}
+						if used {
+							continue
+						}
+						t := g.lf.Type
+						if t == 4 {
+							t = g.cf.Type
+						}
+						held := false
+						for _, x := range grants {
+							if x.p.Ski == g.p.Ski && fmt.Sprint(x.cli, x.srv) == fmt.Sprint(g.cli, g.srv) {
+								held = true
+							}
+						}
+						if held && r.Bool() {
+							over = stack.OpBindDelete(g.p.Ski, next(g.p.Ski), r.Bool(), g.cli, g.srv)
+						} else {
+							over = stack.OpBindCall(g.p.Ski, next(g.p.Ski), r.Bool(), g.cli, g.srv, t+1)
+							grants = append(grants, g)
+						}
+						h = append(h, stack.OpDuring(stack.OpDisconnect(p.Ski), over))
+						write(g.p, g.cli, g.lf)
+						features["disconnect-overlapped-by-bind-or-unbind"]++
+						break
+					}
+				}
+				if over == nil {
+					h = append(h, stack.OpDisconnect(p.Ski))
+				}
 				connected[p.Ski] = false
 				features["disconnect"]++
 			} else if r.Chance(2, 3) {
